@@ -243,6 +243,40 @@ class LedgerGen:
         self.tags.add("scripted-rollback:" + field)
         self.tags.add("rollback")
 
+    def scripted_record_after_storage(self):
+        """an address owns storage before it has an account record: block h writes only storage keys of a fresh address, a
+        later block gives the address its first record (balance / nonce / code) and overwrites or deletes the older keys;
+        rolling that block back must bring the older values back, and the next blocks must continue from them"""
+        r = self.r
+        a = r.choice(["a3", "a4"])      # addresses the random traffic does not use: no record yet
+        ks = r.sample(KEYS, 2)
+        self.plain_block([f"set {a} {ks[0]} v1", f"set {a} {ks[1]} v2"])
+        h = self.height
+        for _ in range(r.choice([0, 0, 1])):
+            self.plain_block([f"setbal {r.choice(ACCTS)} 2"])
+            h = self.height
+        first = r.choice([f"setbal {a} 7", f"setnonce {a} 3", f"setbal {a} 7"])
+        second = r.choice([f"set {a} {ks[0]} zz", f"del {a} {ks[0]}"])
+        ops = [first, second] if r.random() < 0.6 else [second, first]
+        if r.random() < 0.5:
+            ops.append(r.choice([f"del {a} {ks[1]}", f"set {a} {ks[1]} w"]))
+        self.plain_block(ops)
+        if r.random() < 0.4:
+            self.plain_block([f"set {a} x w"])
+        self.ops.append(f"rollback {h}")
+        self.ops.append("ver")
+        self.height = h
+        for k in ks:
+            self.ops.append(f"get {a} {k}")
+        self.ops.append(f"bal {a}")
+        self.ops.append(f"query {a} ~")
+        self.dump()
+        self.plain_block([f"set {a} {ks[1]} yw"] if r.random() < 0.5 else ops)
+        for k in ks:
+            self.ops.append(f"get {a} {k}")
+        self.tags.add("scripted-record-after-storage")
+        self.tags.add("rollback")
+
     def scripted_fork_rollback(self):
         """beyond the journal window: roll back a few blocks, commit a different continuation (its pruning bound lies below the
         retained minimum), then ask for a target below the window: refused, and nothing may have moved"""
@@ -277,6 +311,8 @@ class LedgerGen:
                 self.rollback()
             if rollbacks and self.r.random() < 0.08:
                 self.scripted_rollback()
+            if rollbacks and self.r.random() < 0.05:
+                self.scripted_record_after_storage()
         self.dump()
         return History(self.ops, tags=self.tags)
 
